@@ -1,6 +1,6 @@
 (* C19 - Counterfactual event simplification and factorisation preserve probability. *)
 From Coq Require Import List Bool.
-From Y0 Require Import Base.ListSet Graph.MixedGraph Dsl.Syntax Dsl.Build Alg.Id Alg.Cg Alg.CtfAnc Proofs.CtfP Sem.Scm Sem.CfSem Proofs.ScmP Proofs.MinimizeSemP Proofs.CgSemP Proofs.AncSemP Proofs.SimplifySemP.
+From Y0 Require Import Base.ListSet Graph.MixedGraph Dsl.Syntax Dsl.Build Alg.Id Alg.Cg Alg.CtfAnc Proofs.CtfP Sem.Scm Sem.CfSem Proofs.ScmP Proofs.MinimizeSemP Proofs.CgSemP Proofs.AncSemP Proofs.SimplifySemP Proofs.ComponentsP Proofs.AncCompP.
 Import ListNotations.
 
 (* FIRST CLAUSE, in full: 'minimising a counterfactual variable yields the same random variable in every compatible model'.
@@ -75,6 +75,30 @@ Example C19_simplify_clause_not_vacuous :
   minimized_of g [(yx, Some (1, false)); (yx, Some (1, true))] = Some [(yx, Some (1, false)); (yx, Some (1, true))].
 Proof. vm_compute. auto. Qed.
 
+(* Def. 4.2, 'the ancestral components are exactly those of their published definition': the components returned for the roots' ancestral sets
+   (a) cover exactly the variables of those sets, (b) each contain every ancestral set they meet, (c) are SEPARATED - two different components share
+   no vertex of the graph and no bidirected edge joins a vertex of one to a vertex of the other - and (d) are CONNECTED - each component is the
+   union of a family of ancestral sets any two of which are joined by a chain of ancestral sets whose consecutive members share a vertex or
+   have a bidirected edge between their vertices. (a)-(d) say that the result is the partition into the classes of that relation. *)
+Theorem C19_ancestral_components_cover_contain_and_are_separated conds roots (g : mg nat) comps :
+  get_ancestral_components conds roots g = Some comps ->
+  exists sets, map_opt (fun r => get_ancestral_set_after_intervening conds r g) roots = Some sets /\
+    (forall v, In v (concat comps) <-> In v (concat sets)) /\
+    (forall A, In A sets -> exists C, In C comps /\ incl A C) /\
+    (forall i j Ci Cj, i < j -> nth_error comps i = Some Ci -> nth_error comps j = Some Cj ->
+       (forall n, In n (bases_of Ci) -> ~ In n (bases_of Cj)) /\
+       (forall x y, In x (bases_of Ci) -> In y (bases_of Cj) -> ~ In (x, y) (bid g) /\ ~ In (y, x) (bid g))).
+Proof. exact (ancestral_components_spec conds roots g comps). Qed.
+
+Theorem C19_ancestral_components_are_connected conds roots (g : mg nat) comps sets :
+  map_opt (fun r => get_ancestral_set_after_intervening conds r g) roots = Some sets ->
+  get_ancestral_components conds roots g = Some comps ->
+  forall C, In C comps -> exists F : list var -> Prop,
+    (forall A, F A -> In A (distinct_sets sets)) /\
+    (forall v, In v C <-> exists A, F A /\ In v A) /\
+    (forall A B, F A -> F B -> chainL g (distinct_sets sets) A B).
+Proof. exact (ancestral_components_connected conds roots g comps sets). Qed.
+
 (* Proved on the model for every variable and graph: *)
 Theorem C19_minimisation_is_total_well_formed_and_keeps_exactly_the_relevant_subscripts (v : var) (g : mg nat) :
   exists v', minimize_counterfactual v g = Some v' /\ vn v' = vn v /\ vs v' = vs v /\
@@ -97,6 +121,8 @@ Print Assumptions C19_minimised_variable_is_the_same_random_variable.
 Print Assumptions C19_every_submodel_has_exactly_one_solution.
 Print Assumptions C19_minimising_an_event_preserves_its_truth_everywhere.
 Print Assumptions C19_listed_ancestor_takes_the_value_it_has_in_that_world.
+Print Assumptions C19_ancestral_components_cover_contain_and_are_separated.
+Print Assumptions C19_ancestral_components_are_connected.
 Print Assumptions C19_simplify_preserves_probability_refuted.
 Print Assumptions C19_simplify_without_reflexive_conjuncts_preserves_truth.
 Print Assumptions C19_simplify_without_reflexive_conjuncts_impossible_only_if_never_true.
